@@ -1572,6 +1572,22 @@ static void vf_case(uint64_t c, vf_rng *r)
                 unsigned char own[MMAX];
                 int rc;
                 memcpy(own, x->m + o, kk);
+                /* a C string inside the own storage: the tail from o without NUL bytes, terminated in the spare capacity behind the
+                   content (written here: whether an earlier call left a terminator is not part of the model) */
+                if (!whole && o + kk == x->n && a_str_mem(s) > x->n && !memchr(x->m + o, 0, kk) && 2 * x->n + 8 < MMAX)
+                {
+                    a_str_ptr(s)[x->n] = 0;
+                    opname = term ? "cats-own-tail" : "cats_-own-tail";
+                    vf_log("str %d %s: C string at offset %zu of its own storage (%zu bytes, len %zu mem %zu)", k, opname, o, kk, x->n, a_str_mem(s));
+                    rc = term ? a_str_cats(s, a_str_ptr(s) + o) : a_str_cats_(s, a_str_ptr(s) + o);
+                    ++vf.evals;
+                    VF_COUNT("append-of-own-content");
+                    VF_COUNT("append-of-own-c-string-tail");
+                    if (rc != A_SUCCESS) { FAIL("unexpected-error", "rc %d", rc); alive = 0; break; }
+                    m_append(x, own, kk);
+                    alive = check_state(x, term);
+                    break;
+                }
                 opname = whole ? (term ? "cat-self" : "cat_-self") : (term ? "catn-own-block" : "catn_-own-block");
                 vf_log("str %d %s: %zu bytes of its own content from offset %zu (len %zu mem %zu)", k, opname, kk, o, x->n, a_str_mem(s));
                 rc = whole ? (term ? a_str_cat(s, s) : a_str_cat_(s, s)) : (term ? a_str_catn(s, a_str_ptr(s) + o, kk) : a_str_catn_(s, a_str_ptr(s) + o, kk));
@@ -1642,6 +1658,27 @@ static void vf_case(uint64_t c, vf_rng *r)
             size_t got, want;
             int cls = (int)vf_below(r, 5);
             unsigned char *dst;
+            /* the destination block is a window of the string's OWN content that does not overlap the popped tail (an overlapping
+               destination is a copy between overlapping objects and is not asked for): the tail bytes, as they were before the call,
+               arrive in the window, the length drops, the terminator follows the new end (same operand class as seeded change C06-I) */
+            if (x->n >= 2 && vf_chance(r, 1, 6))
+            {
+                unsigned char tail[MMAX / 2];
+                want = 1 + (size_t)vf_below(r, x->n / 2 < 16 ? x->n / 2 : 16);
+                if (vf_chance(r, 1, 8)) { want = 1 + (size_t)vf_below(r, x->n / 2); }
+                n = (size_t)vf_below(r, x->n - 2 * want + 1); /* window [n, n+want) ends at or before the tail [len-want, len) */
+                memcpy(tail, x->m + x->n - want, want);
+                opname = term ? "getn-into-own" : "getn_-into-own";
+                vf_log("str %d %s nbyte=%zu into own content at %zu (len %zu)", k, opname, want, n, x->n);
+                got = term ? a_str_getn(s, a_str_ptr(s) + n, want) : a_str_getn_(s, a_str_ptr(s) + n, want);
+                ++vf.evals;
+                VF_COUNT("getn-into-window-of-own-content");
+                if (got != want) { FAIL("return-value", "returned %zu expected %zu", got, want); alive = 0; break; }
+                memcpy(x->m + n, tail, want);
+                x->n -= want;
+                alive = check_state(x, term);
+                break;
+            }
             n = cls == 0 ? 0 : cls == 1 ? x->n : cls == 2 ? x->n + 1 : cls == 3 ? SIZE_MAX : (size_t)vf_below(r, x->n + 2);
             want = n < x->n ? n : x->n;
             dst = (unsigned char *)malloc(want ? want : 1);
@@ -1668,6 +1705,60 @@ static void vf_case(uint64_t c, vf_rng *r)
             size_t sn = setn[si], a = 0, b = x->n, before = x->n;
             int term = which < 3, side = which % 3; /* 0 rtrim 1 ltrim 2 trim */
             static char const *const names[] = {"rtrim", "ltrim", "trim", "rtrim_", "ltrim_", "trim_"};
+            unsigned char ownset[16];
+            size_t oo = 0;
+            /* the trim set is a window [oo, oo+sn) of the string's OWN content (str.h does not forbid it, and the scans only read):
+               "all trim sets" includes sets stored in the buffer that the call shortens, moves to the front and terminates. The model
+               works on a snapshot of the window taken BEFORE the call (seeded change C06-I: a_str_trim as terminating rtrim + ltrim,
+               the terminator of the first pass lands inside the set of the second). Half of the time the first byte is appended
+               first, so that both ends carry a member of a window at either end. */
+            if (vf_chance(r, 1, 4) && x->n && a_str_ptr(s))
+            {
+                int const pos = (int)vf_below(r, 3); /* 0 window at the end, 1 at the front, 2 anywhere */
+                if (vf_chance(r, 1, 2) && x->n + 8 < MMAX)
+                {
+                    buf[0] = x->m[0];
+                    a_str_catn(s, buf, 1);
+                    m_append(x, buf, 1);
+                    before = b = x->n;
+                }
+                sn = 1 + (size_t)vf_below(r, x->n < 4 ? x->n : 4);
+                if (vf_chance(r, 1, 8)) { sn = 1 + (size_t)vf_below(r, x->n < sizeof(ownset) ? x->n : sizeof(ownset)); }
+                oo = pos == 0 ? x->n - sn : pos == 1 ? 0 : (size_t)vf_below(r, x->n - sn + 1);
+                memcpy(ownset, x->m + oo, sn);
+                opname = names[which];
+                vf_log("str %d %s set = own content [%zu, %zu) (len %zu)", k, opname, oo, oo + sn, x->n);
+                cellf(opname, x, (size_t)-1, tb);
+                set = a_str_ptr(s) + oo;
+                switch (which)
+                {
+                case 0: a_str_rtrim(s, set, sn); break;
+                case 1: a_str_ltrim(s, set, sn); break;
+                case 2: a_str_trim(s, set, sn); break;
+                case 3: a_str_rtrim_(s, set, sn); break;
+                case 4: a_str_ltrim_(s, set, sn); break;
+                default: a_str_trim_(s, set, sn); break;
+                }
+                ++vf.evals;
+                set = (char const *)ownset; /* from here on only the snapshot */
+                if (side != 1) { while (b > a && ref_trim_set(x->m[b - 1], set, sn)) { --b; } }
+                if (side != 0) { while (a < b && ref_trim_set(x->m[a], set, sn)) { ++a; } }
+                if (a_str_len(s) != b - a)
+                {
+                    FAIL("trim-set-in-own-storage", "a_str_%s(s, a_str_ptr(s) + %zu, %zu) on %zu bytes left %zu bytes, the set as it was before the call leaves %zu (leading %zu, trailing %zu removed)",
+                         opname, oo, sn, before, a_str_len(s), b - a, a, before - b);
+                    alive = 0;
+                    break;
+                }
+                memmove(x->m, x->m + a, b - a);
+                x->n = b - a;
+                VF_COUNT("trim-set-is-window-of-own-content");
+                if (a && before - b) { VF_COUNT("trim-set-is-window-of-own-content-both-ends-removed"); }
+                if (oo + sn > x->n) { VF_COUNT("trim-set-window-reaches-past-the-new-end"); }
+                VF_COUNT("trim-removes-exactly-the-set-members-at-the-ends");
+                alive = check_state(x, term && x->n < before);
+                break;
+            }
             /* make trimming likely: decorate both ends with members of the set */
             if (vf_chance(r, 1, 2) && x->n + 8 < MMAX && a_str_ptr(s))
             {
